@@ -15,6 +15,7 @@ import (
 	"strings"
 	"sync"
 	"sync/atomic"
+	"syscall"
 	"testing"
 	"time"
 
@@ -58,6 +59,16 @@ func newHash(n string) hash.Hash {
 	return nil
 }
 
+// writeExec writes a file that is going to be executed. No fork may happen while the file is open for
+// writing: a child forked (by another case's Start in this process) in that window holds the write
+// descriptor until its exec, and an exec of the file meanwhile fails with ETXTBSY ("text file busy").
+// syscall.ForkLock is the lock os/exec takes for that purpose.
+func writeExec(path string, data []byte) error {
+	syscall.ForkLock.RLock()
+	defer syscall.ForkLock.RUnlock()
+	return os.WriteFile(path, data, 0o755)
+}
+
 func TestC13(t *testing.T) {
 	forCases(t, 16, func(c spec.Case, e Em) {
 		var p spec.C13Case
@@ -67,7 +78,7 @@ func TestC13(t *testing.T) {
 		content := spec.C13File(p.FileKind, p.FileSize, p.FileSeed)
 		path := filepath.Join(d, "plugin-bin")
 		if !p.Missing {
-			os.WriteFile(path, content, 0o755)
+			writeExec(path, content)
 		}
 		var o spec.C13Obs
 		if len(p.Concurrent) > 0 {
@@ -80,7 +91,7 @@ func TestC13(t *testing.T) {
 					body = append(append([]byte(nil), content...), '#', 'x')
 				}
 				pi := filepath.Join(d, fmt.Sprintf("bin%d", i))
-				os.WriteFile(pi, body, 0o755)
+				writeExec(pi, body)
 				md := filepath.Join(d, "m"+strconv.Itoa(i))
 				os.MkdirAll(md, 0o755)
 				h := newHash(p.Hash)
@@ -162,14 +173,33 @@ func TestC13(t *testing.T) {
 				os.MkdirAll(filepath.Join(d, "a"), 0o755)
 				os.MkdirAll(filepath.Join(d, "b", "sub"), 0o755)
 				os.Symlink(filepath.Join(d, "b", "sub"), filepath.Join(d, "a", "link"))
-				os.WriteFile(filepath.Join(d, "b", "bin"), at, 0o755)
-				os.WriteFile(filepath.Join(d, "a", "bin"), other, 0o755)
+				writeExec(filepath.Join(d, "b", "bin"), at)
+				writeExec(filepath.Join(d, "a", "bin"), other)
 				path = filepath.Join(d, "a", "link") + "/../bin"
 			case "symlink":
-				os.WriteFile(filepath.Join(d, "real-bin"), at, 0o755)
-				os.WriteFile(filepath.Join(d, "decoy-bin"), other, 0o755)
+				writeExec(filepath.Join(d, "real-bin"), at)
+				writeExec(filepath.Join(d, "decoy-bin"), other)
 				path = filepath.Join(d, "link-bin")
 				os.Symlink(filepath.Join(d, "real-bin"), path)
+			}
+			argv0 := ""
+			switch kind {
+			case "relative", "argv0":
+				// a relative Cmd.Path (Cmd.Dir unset: resolved against the host's working directory); for
+				// "argv0" the process is also given an argv[0] that names the OTHER file by its absolute path
+				// (argv[0] is only what the process sees as its name; the kernel runs Cmd.Path)
+				writeExec(filepath.Join(d, "bin"), at)
+				writeExec(filepath.Join(d, "other-bin"), other)
+				cwd, _ := os.Getwd()
+				if rel, err := filepath.Rel(cwd, filepath.Join(d, "bin")); err == nil {
+					path = rel
+					if !strings.Contains(path, "/") {
+						path = "./" + path
+					}
+				}
+				if kind == "argv0" {
+					argv0 = filepath.Join(d, "other-bin")
+				}
 			}
 			// what is at the path as the kernel resolves it
 			if b, err := os.ReadFile(path); err == nil {
@@ -181,6 +211,9 @@ func TestC13(t *testing.T) {
 			cfg.StartTimeout = 600 * time.Millisecond
 			hostSetFor(cfg, "netrpc")
 			cfg.Cmd = &exec.Cmd{Path: path, Args: []string{path}} // exactly this spelling, no LookPath clean-up
+			if argv0 != "" {
+				cfg.Cmd.Args = []string{argv0}
+			}
 			cfg.Cmd.Env = []string{"VERIF_MARKER_DIR=" + d}
 			cfg.SecureConfig = &plugin.SecureConfig{Checksum: p.Checksum, Hash: newHash(p.Hash)}
 			cl := plugin.NewClient(cfg)
@@ -212,7 +245,7 @@ func TestC13(t *testing.T) {
 				}
 				// replace the file the way an upgrade or an attacker would: atomically
 				tmp := path + ".new"
-				os.WriteFile(tmp, body, 0o755)
+				writeExec(tmp, body)
 				os.Rename(tmp, path)
 				md := filepath.Join(d, "m"+strconv.Itoa(i))
 				os.MkdirAll(md, 0o755)
